@@ -32,6 +32,72 @@ Proof.
   unfold factor, congruent in *. split; [lia|]. change (2 ^ 32) with 4294967296. lia.
 Qed.
 
+(* ---------------------------------------------------------------- both styles *)
+Section TwoStylesProofs.
+  Variable G : Type.
+  Variable gseed : Z -> G.
+  Variable gnext : G -> G.
+  Variable gout : G -> Z.
+  Notation setS := (set_seed2 G gseed).
+  Notation run := (rrun2 G gnext gout setS).
+  Notation state := (rstate2 G gnext gout setS).
+
+  (* what the values depend on: the style, and the cell that carries the state in that style *)
+  Definition req (a b : rst G) : Prop :=
+    r_old G a = r_old G b /\ (if r_old G a then r_val G a = r_val G b else r_gen G a = r_gen G b).
+  (* style switches after the seed may bring the other cell into play: full equality of what is reachable *)
+  Definition rsame (a b : rst G) : Prop := r_old G a = r_old G b /\ r_val G a = r_val G b /\ r_gen G a = r_gen G b.
+
+  Lemma run_same : forall p a b, rsame a b -> run a p = run b p.
+  Proof.
+    induction p as [|o r IH]; intros a b [H1 [H2 H3]]; simpl; [reflexivity|].
+    destruct a as [ao av ag], b as [bo bv bg]. simpl in *. subst. reflexivity.
+  Qed.
+
+  (* after law_set_random_seed(s), s > 0: the values that follow depend on s, on the style in force and - only if the style
+     is switched afterwards - on the cell of the other style; never on the draws made before, nor on the previous seed
+     (equal to s or not).  Stated for histories that keep the style after the seed. *)
+  Fixpoint no_style (p : list rop2) : bool :=
+    match p with [] => true | R2Style _ :: _ => false | _ :: r => no_style r end.
+  Lemma run_req : forall p a b, no_style p = true -> req a b -> run a p = run b p.
+  Proof.
+    induction p as [|o r IH]; intros a b Hn [H1 H2]; simpl; [reflexivity|].
+    destruct a as [ao av ag], b as [bo bv bg]. simpl in H1, H2. subst bo.
+    destruct o as [s| |bb]; simpl in Hn; try discriminate.
+    - apply IH; [exact Hn|]. unfold set_seed2. simpl. destruct (Z.ltb 0 s).
+      + unfold req. simpl. split; [reflexivity|]. destruct ao; [reflexivity | reflexivity].
+      + unfold req. simpl. split; [reflexivity | exact H2].
+    - unfold draw2. simpl. destruct ao.
+      + subst bv. simpl. f_equal. apply IH; [exact Hn|]. unfold req. simpl. split; reflexivity.
+      + subst bg. simpl. f_equal. apply IH; [exact Hn|]. unfold req. simpl. split; reflexivity.
+  Qed.
+  Theorem rng_seeded_both : forall (s : Z) (prefix1 prefix2 after : list rop2) (a b : rst G),
+      0 < s -> no_style after = true -> r_old G (state a prefix1) = r_old G (state b prefix2) ->
+      run (state a prefix1) (R2Seed s :: after) = run (state b prefix2) (R2Seed s :: after).
+  Proof.
+    intros s p1 p2 after a b Hs Hn Ho. simpl. apply run_req; [exact Hn|].
+    assert (E : Z.ltb 0 s = true) by (apply Z.ltb_lt; exact Hs).
+    destruct (state a p1) as [xo xv xg]. destruct (state b p2) as [yo yv yg]. simpl in Ho. subst yo.
+    unfold set_seed2. rewrite E. unfold req. simpl. split; [reflexivity|]. destruct xo; reflexivity.
+  Qed.
+End TwoStylesProofs.
+
+(* the early-return variant ("the seed is already the current one") breaks the contract in the new style: with ANY engine
+   whose first two outputs after a seed differ, seeding twice with the same seed around a draw does not restart the stream *)
+Theorem rng_early_return_refuted : forall (G : Type) (gseed : Z -> G) (gnext : G -> G) (gout : G -> Z) (s : Z) (g0 : G),
+    0 < s -> gout (gseed s) <> gout (gnext (gseed s)) ->
+    let st0 := {| r_old := false; r_val := initial_value; r_gen := g0 |} in
+    rrun2 G gnext gout (set_seed2_early G gseed) (rstate2 G gnext gout (set_seed2_early G gseed) st0 [R2Seed s; R2Draw]) [R2Seed s; R2Draw] <>
+    rrun2 G gnext gout (set_seed2_early G gseed) st0 [R2Seed s; R2Draw] \/ s = initial_value.
+Proof.
+  intros G gseed gnext gout s g0 Hs Hd. simpl.
+  destruct (Z.eqb_spec s initial_value) as [E|E]; [right; exact E|]. left.
+  unfold set_seed2_early. simpl.
+  assert (E1 : Z.leb s 0 = false) by (apply Z.leb_gt; exact Hs). rewrite E1. simpl.
+  assert (E2 : Z.eqb s initial_value = false) by (apply Z.eqb_neq; exact E). rewrite E2. simpl.
+  rewrite Z.eqb_refl. simpl. intros H. inversion H. apply Hd. symmetry. assumption.
+Qed.
+
 (* ---------------------------------------------------------------- the Richtmeyer sequence restarts at each mvndst *)
 Local Close Scope Z_scope.
 Local Open Scope nat_scope.
